@@ -5,6 +5,8 @@ import abc
 
 from numpy.random import choice
 
+from jaqalpaq.error import JaqalError
+
 from jaqalpaq.core.result import ExecutionResult, Readout
 from jaqalpaq.core.result import ProbabilisticSubcircuit
 from jaqalpaq.core.algorithm.walkers import TraceVisitor, DiscoverSubcircuits
@@ -44,6 +46,9 @@ class AbstractBackend:
         """
 
         registers = circ.fundamental_registers()
+
+        if not registers:
+            raise JaqalError("Cannot emulate a circuit without a register.")
 
         try:
             (register,) = registers
